@@ -712,3 +712,64 @@ def m4(facts, tier):
                          "native/effective schemas of caller and implementation reach the decision in the right order")
     if n == 0:
         yield ob(["C11", "C10"], "M4", "layout-decision-inputs", "violation", "", "no call of arg_layout_compatible at connection creation (anchor lost)")
+
+
+@rule("A6", ["C09"], floor=2, doc="a (pointer, length) pair sent across the boundary describes one object: the length written after `x.as_ptr()` is "
+      "`x.len()` of the same x (bytes for str, elements for slices)")
+def a6(facts, tier):
+    n = 0
+    for fid, f in facts.fns.items():
+        if f["crate"] != "sfcorpus" or "abi::" not in fid:
+            continue
+        seq_calls = [x for x in walk(f["body"]) if x.get("k") == "Call" and (callee(x) or "").startswith("savefile::Serializer::write_")]
+        for i, x in enumerate(seq_calls):
+            if callee(x) != "savefile::Serializer::write_ptr" or len(x["args"]) < 2:
+                continue
+            src = None
+            for y in walk(x["args"][1]):
+                if y.get("k") == "Call" and (callee(y) or "").endswith("::as_ptr") and y["args"]:
+                    src = base_var(y["args"][0])
+            if src is None or i + 1 >= len(seq_calls) or callee(seq_calls[i + 1]) != "savefile::Serializer::write_usize":
+                continue
+            n += 1
+            ln = peel(seq_calls[i + 1]["args"][1])
+            ok = ln.get("k") == "Call" and (callee(ln) or "").endswith("::len") and ln["args"] and base_var(ln["args"][0]) == src
+            m = CONN_RE.match(fid)
+            key = (m.group(1) + "::" + m.group(3)) if m else fid.split(" as ")[0].lstrip("<(") + "::" + fid.rsplit("::", 1)[-1]
+            yield ob(["C09"], "A6", key, "pass" if ok else "violation", where(f, x),
+                     "length sent with the pointer is len() of the same object" if ok else
+                     f"{fid}: the length sent after `{src.split('#')[0]}.as_ptr()` is not `{src.split('#')[0]}.len()`: the receiver "
+                     f"reconstructs a slice/str of the wrong size")
+
+
+@rule("M5", ["C11", "C09"], floor=1, doc="the by-reference mask stored for a method is built from scratch for that method (initialised to 0 inside the per-method loop)")
+def m5(facts, tier):
+    from ..flow import parent_map
+    found = False
+    for fid, f in facts.fns.items():
+        if f["crate"] != "savefile_abi" or not fid.endswith("::analyze_and_create"):
+            continue
+        pm = parent_map(f["body"])
+        for x in walk(f["body"]):
+            if x.get("k") == "Adt" and x.get("adt", "").endswith("AbiConnectionMethod"):
+                fld = {fl["f"]: fl["e"] for fl in x["fields"]}
+                mv = peel(fld.get("compatibility_mask", {}))
+                if mv.get("k") != "Var":
+                    continue
+                found = True
+                loop = None
+                for a in ancestors(pm, x):
+                    if a.get("k") in ("For", "Loop"):
+                        loop = a
+                        break
+                decl = None
+                for y in walk(loop["body"] if loop else f["body"]):
+                    if y.get("k") == "LetS" and y["pat"].get("k") == "Bind" and y["pat"]["v"] == mv["v"]:
+                        decl = y
+                ok = loop is not None and decl is not None and peel(decl.get("init") or {}).get("int") == 0
+                yield ob(["C11", "C09"], "M5", "mask-per-method", "pass" if ok else "violation", where(f, x),
+                         "compatibility mask starts at 0 for every method" if ok else
+                         "the compatibility mask variable is not initialised to 0 inside the per-method loop: bits of earlier methods "
+                         "carry over and arguments with different layouts are passed by pointer")
+    if not found:
+        yield ob(["C11", "C09"], "M5", "mask-per-method", "violation", "", "no method record with a mask variable found (anchor lost)")
